@@ -139,3 +139,19 @@ def raytracing_delegates(state, area, rng):
           kwonly=['area', 'rng'], props=['C02', 'C05', 'C06'], stubs=[OF + 'from_visibility'])
 def stochastic_raytracing_delegates(state, area, rng):
     delegation('stochastic_raytracing')(state, area, rng)
+
+
+@contract(target=OF + 'from_visibility',
+          args={'state': 'State', 'area': 'Area', 'visibility_function': 'VisFn', 'rng': 'Rng', 'declared': 'ObjPred'},
+          kwonly=['area', 'visibility_function', 'rng'], ghost=['declared'], props=['C01'])
+def observation_stays_in_its_space(state, area, visibility_function, rng, declared):
+    """the observation of a state of the space lies in the observation space: cells are Hidden or declared
+    objects, shape = view shape, agent on the anchor cell inside the view, held item unchanged"""
+    requires(forall_cells(state.grid, lambda c: declared(state.grid[c])))
+    requires(area.ymin <= 0 and 0 <= area.ymax and area.xmin <= 0 and 0 <= area.xmax)   # the view contains the agent
+    hand = old(state.agent.grid_object)
+    ensures('in-the-observation-space', lambda: implies(returned(), lambda: (
+        result().grid.shape == Shape(area.height, area.width)
+        and forall_cells(result().grid, lambda c: declared(result().grid[c]) or isinstance(result().grid[c], Hidden))
+        and in_grid(result().grid, result().agent.position)
+        and same(result().agent.grid_object, hand))))
